@@ -16,7 +16,8 @@ def consts():
                              "CYS_HIS": float(sc["CYS_HIS_exception"]), "CYS_CYS": float(sc["CYS_CYS_exception"])},
               "bb_max": max(abs(v[0]) for v in list(cfg["backbone_NH_hydrogen_bond"].values()) + list(cfg["backbone_CO_hydrogen_bond"].values())),
               "coulomb_max": 244.12 / (30.0 * float(sc["coulomb_cutoff1"])),
-              "acid_list": set(cfg["acid_list"]), "base_list": set(cfg["base_list"])}
+              "acid_list": set(cfg["acid_list"]), "base_list": set(cfg["base_list"]),
+              "ions": dict(cfg["ions"])}
     return _C
 
 
@@ -124,6 +125,14 @@ def check_conformation(name, conf, viol, counts, classes):
             partners = by_atom.get(tuple(d[0]), [])
             pq = d[4]
             ion = any(p["type"] == "ION" for p in partners)
+            if ion:
+                # the formal charge of an ion is the one configured for its residue name
+                formal = c["ions"].get(d[5][4].strip())
+                counts["ion_formal_charges_checked"] = counts.get("ion_formal_charges_checked", 0) + 1
+                if formal is not None and formal != pq:
+                    viol.append({"cls": "ion-charge-not-configured-value", "msg": "%s: ion %s (residue %s) acts with charge %+g, configured %+g" % (
+                        name, d[2], d[5][4], pq, formal)})
+                    pq = formal
             bound = c["coulomb_max"] * (abs(pq) if ion else 1.0)
             if abs(d[3]) > bound + EPS:
                 viol.append({"cls": "determinant-out-of-bounds", "msg": "%s: %s Coulomb determinant %+.4f from %s exceeds %.3f" % (name, g["label"], d[3], d[2], bound)})
